@@ -60,6 +60,16 @@ class ExprMixin:
             return v
         if isinstance(v, PyList):
             items = []
+            cur = getattr(self, "loops", ())
+            if cur and v.items and not getattr(self, "_quiet_reads", 0):
+                # a list created outside a loop of the current nest, filled inside it and read while that loop is still
+                # running: python sees the items of the iterations so far only (a prefix in iteration order), the term
+                # below ranges over all of them
+                for it in v.items:
+                    shared = [l for l in it.loops if l in cur and l not in v.base_loops]
+                    if shared:
+                        self.event("prefix-read", {"loop": shared[0], "list": ("each", it.loops, it.guards, self._safe_term(it.value))}, None)
+                        break
             for it in v.items:
                 val = self.to_term(it.value)
                 if it.loops or it.guards:
@@ -88,6 +98,13 @@ class ExprMixin:
         if isinstance(v, SuperRef):
             return ("super", self.to_term(v.self_obj))
         return ("unk", f"value {type(v).__name__}")
+
+    def _safe_term(self, v):
+        self._quiet_reads = getattr(self, "_quiet_reads", 0) + 1
+        try:
+            return self.to_term(v)
+        finally:
+            self._quiet_reads -= 1
 
     def guard_term(self, v):
         """term of a value used as a python-level condition whose truth is not decided"""
